@@ -135,11 +135,25 @@ def check(ctx):
             "let @a = { 'p (rec x num) };\nlet @b = { 'q @a, 'r (rec y uri) };\nres /r on get -> <@b> :: <status=404, (rec z bool)>;\n",
             # paths that differ by an empty segment only are different paths with different derived operationIds
             "res /items on get -> { 'count int };\nres /items/ on get -> { 'first str };\nres / on get -> {};\n",
+            # a query (or header) property may carry the name of a path variable: still one path parameter per variable
+            "res /items/{ 'id int }?{ 'id str, 'limit int } on get -> { 'name str };\nres /users/{ 'uid int }?{ 'q str } on get { 'uid str } -> { 'name str };\n",
+            "res /a/{ 'id num }/b/{ 'k num }?{ 'id str, 'k int } on get, put { 'id bool } -> <headers={ 'k str }, {}>;\n",
             # user-chosen map keys spelling "$ref": their values are objects, not references
             "let @a = { '$ref str, 'n [@a] };\nres /x on get : { '$ref int } -> <headers={ '$ref str }, media=\"$ref\", @a>;\n",
         ]
         for s in extra:
             ps.append({"mods": {"file:///w/main.oal": s}, "main": "file:///w/main.oal", "features": ["corpus"], "ast": None})
+        # generated programs in which a query property is renamed to a path variable of the same URI
+        import re
+        clash = 0
+        for p0 in list(ps[: (1500 if ctx.thorough else 200)]):
+            src = p0["mods"][p0["main"]]
+            m = re.search(r"res [^\n;]*\{ '(v\d+)[?!]? [^}]*\}[^\n;?]*\?\{ '(p\d+)", src)
+            if m and len(p0["mods"]) == 1:
+                s2 = src[:m.start(2)] + m.group(1) + src[m.end(2):]
+                ps.append({"mods": {p0["main"]: s2}, "main": p0["main"], "features": ["query-named-like-path-variable"], "ast": None})
+                clash += 1
+        ctx.count("query_named_like_path_variable", clash)
         for i in range(0, len(ps), 4):
             ps[i]["base"] = json.dumps(rand_base(ctx.rng))
     progs.feature_stats(ctx, ps)
